@@ -34,7 +34,7 @@ for mp in sorted(glob.glob(os.path.join(VERIF, 'seeded', '*', 'meta.json'))):
     out.append('| %s | %s | %s | %s |' % (m['id'], summ, det, ' '.join(m.get('missed_by', []))))
 metas = [json.load(open(mp)) for mp in sorted(glob.glob(os.path.join(VERIF, 'seeded', '*', 'meta.json')))]
 missed = [m for m in metas if m.get('first_missed_by_own_check')]
-out.append("\n%d of the %d seeds were first **missed** by the check of their own property; each led to a stronger check (%d of %d are\ncaught now by the check of their own property, and the unchanged tree still passes, also for VERIF_SEED 2, 3 and 4):" % (len(missed), len(metas), len([m for m in metas if m['property'] in m.get('detected_by', [])]), len(metas)))
+out.append("\n%d of the %d seeds were first **missed** by the check of their own property; each led to a stronger check (%d of %d are\ncaught now by the check of their own property, and the unchanged tree still passes, also for VERIF_SEED 2 to 7):" % (len(missed), len(metas), len([m for m in metas if m['property'] in m.get('detected_by', [])]), len(metas)))
 for m in missed:
     out.append("* `%s` - %s" % (m['id'], m.get('strengthening', '')))
 nd = [m for m in metas if m.get('not_detected_reason')]
